@@ -294,6 +294,31 @@ static void case_mpz_misc(ByteSource& in, CaseInfo& ci) {
   }
 }
 
+
+// ---- exhaustive sweep: every (n,d) in [-130,130]^2 through every mpz division entry point ----------------------
+static uint64_t sweep_count() { return 261ull * 261ull; }
+static void sweep_item(uint64_t i, CaseInfo& ci) {
+  long n = (long)(i / 261) - 130, d = (long)(i % 261) - 130; ci.d("n=%ld d=%ld", n, d); Int N((long long)n), D((long long)d);
+  Z3 z; mpz_set_si(z.a, n); mpz_set_si(z.b, d);
+  { bool e = d == 0 ? n == 0 : n % d == 0; REQUIRE((mpz_divisible_p(z.a, z.b) != 0) == e, "mpz_divisible_p(%ld,%ld)", n, d); if (d >= 0) REQUIRE((mpz_divisible_ui_p(z.a, (unsigned long)d) != 0) == e, "mpz_divisible_ui_p(%ld,%ld)", n, d); }
+  for (long c = -3; c <= 3; c++) { bool e = d == 0 ? n == c : (n - c) % d == 0; mpz_set_si(z.c, c); REQUIRE((mpz_congruent_p(z.a, z.c, z.b) != 0) == e, "mpz_congruent_p(%ld,%ld,%ld)", n, c, d); if (c >= 0 && d >= 0) REQUIRE((mpz_congruent_ui_p(z.a, (unsigned long)c, (unsigned long)d) != 0) == e, "mpz_congruent_ui_p(%ld,%ld,%ld)", n, c, d); }
+  if (d == 0) return;
+  for (int rnd = 0; rnd < 3; rnd++) { Int Q, R; expect_div((Rnd)rnd, N, D, Q, R); const char* rn = rnd == 0 ? "tdiv" : rnd == 1 ? "fdiv" : "cdiv";
+    if (rnd == 0) mpz_tdiv_qr(z.c, z.d, z.a, z.b); else if (rnd == 1) mpz_fdiv_qr(z.c, z.d, z.a, z.b); else mpz_cdiv_qr(z.c, z.d, z.a, z.b); REQUIRE(int_from_mpz(z.c) == Q && int_from_mpz(z.d) == R, "mpz_%s_qr(%ld,%ld)", rn, n, d);
+    if (rnd == 0) mpz_tdiv_q(z.c, z.a, z.b); else if (rnd == 1) mpz_fdiv_q(z.c, z.a, z.b); else mpz_cdiv_q(z.c, z.a, z.b); REQUIRE(int_from_mpz(z.c) == Q, "mpz_%s_q(%ld,%ld)", rn, n, d);
+    if (rnd == 0) mpz_tdiv_r(z.d, z.a, z.b); else if (rnd == 1) mpz_fdiv_r(z.d, z.a, z.b); else mpz_cdiv_r(z.d, z.a, z.b); REQUIRE(int_from_mpz(z.d) == R, "mpz_%s_r(%ld,%ld)", rn, n, d);
+    if (d > 0) { unsigned long u = (unsigned long)d, ret;
+      ret = rnd == 0 ? mpz_tdiv_qr_ui(z.c, z.d, z.a, u) : rnd == 1 ? mpz_fdiv_qr_ui(z.c, z.d, z.a, u) : mpz_cdiv_qr_ui(z.c, z.d, z.a, u); REQUIRE(int_from_mpz(z.c) == Q && int_from_mpz(z.d) == R && Int::from_u64(ret) == R.abs(), "mpz_%s_qr_ui(%ld,%ld)", rn, n, d);
+      ret = rnd == 0 ? mpz_tdiv_q_ui(z.c, z.a, u) : rnd == 1 ? mpz_fdiv_q_ui(z.c, z.a, u) : mpz_cdiv_q_ui(z.c, z.a, u); REQUIRE(int_from_mpz(z.c) == Q && Int::from_u64(ret) == R.abs(), "mpz_%s_q_ui(%ld,%ld)", rn, n, d);
+      ret = rnd == 0 ? mpz_tdiv_r_ui(z.d, z.a, u) : rnd == 1 ? mpz_fdiv_r_ui(z.d, z.a, u) : mpz_cdiv_r_ui(z.d, z.a, u); REQUIRE(int_from_mpz(z.d) == R && Int::from_u64(ret) == R.abs(), "mpz_%s_r_ui(%ld,%ld)", rn, n, d);
+      ret = rnd == 0 ? mpz_tdiv_ui(z.a, u) : rnd == 1 ? mpz_fdiv_ui(z.a, u) : mpz_cdiv_ui(z.a, u); REQUIRE(Int::from_u64(ret) == R.abs(), "mpz_%s_ui(%ld,%ld)", rn, n, d); }
+    if (d > 0 && (d & (d - 1)) == 0) { unsigned b = (unsigned)__builtin_ctzl((unsigned long)d);
+      if (rnd == 0) mpz_tdiv_q_2exp(z.c, z.a, b); else if (rnd == 1) mpz_fdiv_q_2exp(z.c, z.a, b); else mpz_cdiv_q_2exp(z.c, z.a, b); REQUIRE(int_from_mpz(z.c) == Q, "mpz_%s_q_2exp(%ld,%u)", rn, n, b);
+      if (rnd == 0) mpz_tdiv_r_2exp(z.d, z.a, b); else if (rnd == 1) mpz_fdiv_r_2exp(z.d, z.a, b); else mpz_cdiv_r_2exp(z.d, z.a, b); REQUIRE(int_from_mpz(z.d) == R, "mpz_%s_r_2exp(%ld,%u)", rn, n, b);
+      REQUIRE((mpz_divisible_2exp_p(z.a, b) != 0) == (n % d == 0), "mpz_divisible_2exp_p(%ld,%u)", n, b); } }
+  mpz_mod(z.c, z.a, z.b); REQUIRE(int_from_mpz(z.c) == ref::emod(N, D), "mpz_mod(%ld,%ld)", n, d);
+  if (n % d == 0) { mpz_divexact(z.c, z.a, z.b); REQUIRE(int_from_mpz(z.c) == Int((long long)(n / d)), "mpz_divexact(%ld,%ld)", n, d); if (d > 0) { mpz_divexact_ui(z.c, z.a, (unsigned long)d); REQUIRE(int_from_mpz(z.c) == Int((long long)(n / d)), "mpz_divexact_ui(%ld,%ld)", n, d); } }
+}
 static void check(ByteSource& in, CaseInfo& ci) {
   switch (in.pick({6, 2, 4, 1, 7, 4, 3, 6})) {
     case 0: case_tdiv_qr(in, ci); break; case 1: case_divrem(in, ci); break; case 2: case_divrem_1(in, ci); break; case 3: case_by3(in, ci); break;
@@ -303,5 +328,6 @@ static void check(ByteSource& in, CaseInfo& ci) {
 namespace eng {
 PropDef g_prop = {"C02",
   "Cases: one call of mpn_tdiv_qr (qxn=0, top divisor limb non-zero, dividend may have high zero limbs), mpn_divrem (normalised divisor, qxn 0..3), mpn_divrem_1 (qxn 0..3, n=0 allowed, in place), mpn_mod_1, mpn_divexact_by3c, or of the mpz tdiv/fdiv/cdiv q/r/qr functions (all sign combinations, outputs aliasing inputs), their _ui and _2exp forms, mpz_mod(_ui), mpz_divexact(_ui) on exact inputs only, mpz_divisible_*/congruent_* incl. d=0. Operands by backward construction n=q*d+r: divisor sizes around the schoolbook/divide-and-conquer/inverse thresholds, quotient shapes (short, nn~2dn, long), quotient limbs all-ones, r in {0,1,d-1,random}, dividends whose leading limbs (or several windows) equal the divisor's, divisor classes (power of two, B^k-1, top limb 1, normalised, single-limb classes). Oracle: refint: n=q*d+r, |r|<|d|, rounding direction and remainder sign per the manual, _ui return = |r|. Non-trivial: nn>dn or dn>=2 (mpn) / operand >= 2 limbs (mpz). Distinct = hash of all decoded choices.",
-  check, nullptr, {"q_limb_allones", "r_eq_d_minus_1", "r_zero", "unnormalised_d", "short_quotient", "n_prefix_equals_d", "dn_ge_dc_div_qr", "dn_ge_inv_div_qr", "sign:--", "sign:-+", "sign:+-", "d_zero", "divrem_qxn"}};
+  check, nullptr, {"q_limb_allones", "r_eq_d_minus_1", "r_zero", "unnormalised_d", "short_quotient", "n_prefix_equals_d", "dn_ge_dc_div_qr", "dn_ge_inv_div_qr", "sign:--", "sign:-+", "sign:+-", "d_zero", "divrem_qxn"}, nullptr, sweep_count, sweep_item,
+  "every (n,d) in [-130,130]^2 through mpz_{t,f,c}div_{q,r,qr}, their _ui forms (d>0), the _2exp forms (d a power of two), mpz_mod, mpz_divexact(_ui) when exact, mpz_divisible_p/_ui_p/_2exp_p and mpz_congruent_p/_ui_p for c in [-3,3], d = 0 included where the manual defines it"};
 }
